@@ -16,8 +16,9 @@ pub enum ChunkDeserializationError {
 
     /// The max chunk size does not allow chunk sizes more than 2,147,483,647 (since it's encoded in only
     /// 31 bytes of the SetChunkSize message), so this error occurs when a chunk size of greater than
-    /// this value is attempted to be set
-    #[error("Requested an invalid max chunk size of {chunk_size}.  The largest chunk size possible is 2147483647")]
+    /// this value is attempted to be set.  A chunk size of zero is also invalid, as no message data
+    /// could ever be transferred with it.
+    #[error("Requested an invalid max chunk size of {chunk_size}.  The chunk size must be between 1 and 2147483647")]
     InvalidMaxChunkSize { chunk_size: usize },
 
     /// An I/O error occurred while reading the input buffer
